@@ -3,6 +3,7 @@ CONSTANTS
   Pool <- PoolDef
   InitSet <- Init_quick
   Ops <- OpsC03
+  DeepOps <- OpsC03
   MaskPats <- NoMasks
   PadModes <- NoModes
   RotKs <- NoKs
